@@ -1051,6 +1051,17 @@ func ReachingStores(a *ssa.Alloc, at ssa.Instruction) (vals []ssa.Value, zero bo
 			}
 			stores[x] = x
 		case *ssa.UnOp, *ssa.DebugRef:
+		case *ssa.MakeClosure:
+			// captured by a closure that only reads it: the parent's stores are the only definitions
+			fn, _ := x.Fn.(*ssa.Function)
+			if fn == nil {
+				return nil, false, false
+			}
+			for i, b := range x.Bindings {
+				if b == ssa.Value(a) && i < len(fn.FreeVars) && closureWrites(fn, fn.FreeVars[i], 0) {
+					return nil, false, false
+				}
+			}
 		default:
 			return nil, false, false
 		}
@@ -1085,4 +1096,38 @@ func ReachingStores(a *ssa.Alloc, at ssa.Instruction) (vals []ssa.Value, zero bo
 	b := at.Block()
 	scanUp(b, InstrIndex(at)-1)
 	return vals, zero, true
+}
+
+// closureWrites: fn (or a nested closure) stores through the captured variable fv or lets its address escape.
+func closureWrites(fn *ssa.Function, fv *ssa.FreeVar, depth int) bool {
+	if depth > 4 {
+		return true
+	}
+	refs := fv.Referrers()
+	if refs == nil {
+		return false
+	}
+	for _, r := range *refs {
+		switch x := r.(type) {
+		case *ssa.UnOp, *ssa.DebugRef:
+		case *ssa.Store:
+			if x.Addr == ssa.Value(fv) {
+				return true
+			}
+			return true
+		case *ssa.MakeClosure:
+			inner, _ := x.Fn.(*ssa.Function)
+			if inner == nil {
+				return true
+			}
+			for i, b := range x.Bindings {
+				if b == ssa.Value(fv) && i < len(inner.FreeVars) && closureWrites(inner, inner.FreeVars[i], depth+1) {
+					return true
+				}
+			}
+		default:
+			return true
+		}
+	}
+	return false
 }
